@@ -153,7 +153,24 @@ class C03(Cross):
             return "stack exhausted (unbounded recursion): %s" % impl[:300]
         if impl.startswith("diverge") or "too many" in impl:
             return "item count beyond the input-size bound: %s" % impl[:300]
+        if impl == "toolong" and op.startswith("iter ") and self._imglen is not None and 70000 > self._imglen // 2:
+            # the harness gave up after 70000 items: more than (input length / 2) items, 2 bytes being the
+            # smallest record any iterator of the crate walks (name indices, relocation words)
+            return "an iterator yields more than 70000 items from an input of %d bytes (bound: length / smallest record size = %d)" % (self._imglen, self._imglen // 2)
         return None
+
+    _imglen = None
+
+    def begin_case(self, case):
+        # the largest buffer of the case; unknown (not judged) when an operation replaces the buffer by a converted one
+        self._imglen = None
+        if any(l.startswith("img_to_") for l in case):
+            return
+        for l in case:
+            if l.startswith("img "):
+                w = l.split(" ")
+                if len(w) > 3:
+                    self._imglen = max(self._imglen or 0, 0 if w[3] == "-" else len(w[3]) // 2)
 
 
 PROPS = [C01(), C02(), C03()]
